@@ -1,0 +1,32 @@
+//go:build verif
+
+// Machine-checked contracts (read by /verif/bin/fsv; comment-only, guarded by the verif tag).
+// C10: fallback replaces exactly the failures it handles, once.
+
+package fallback
+
+//@ frozen config.BaseFailurePolicy, config.fn, config.onFallbackExecuted, fallback.config, executor.BaseExecutor, executor.fallback
+
+//@ func (*executor).Apply$1
+//@   dyntype policy.Executor *executor
+//@   inlinecalls (*BaseExecutor).PostExecute
+//@   requires e != nil && e.BaseExecutor != nil && e.fallback != nil && e.config != nil && e.fn != nil && innerFn != nil
+//@   requires typeis(e.Executor, *executor) && asref(e.Executor, *executor) == e
+//@   requires typeis(exec, *failsafe.execution)
+//@   requires condsWellFormed(e.BaseExecutor)
+//@   ext inner := cast(ret(innerFn, 1), *common.PolicyResult)
+//@   premise inner != nil
+//@   let failed := isFailureOf(e.BaseExecutor, inner.Result, inner.Error)
+//@   let c1 := retb(exec.IsCanceledWithResult, 1, 0)
+//@   let c2 := retb(exec.IsCanceledWithResult, 2, 0)
+//@   let fbRes := ret(e.fn, 1, 0)
+//@   let fbErr := ret(e.fn, 1, 1)
+//@   ensures [C10.inner_once] ncalls(innerFn) == 1 && arg(innerFn, 1, 0) == exec
+//@   ensures [C10.passthrough] !failed ==> ncalls(e.fn) == 0 && ncalls(e.onFallbackExecuted) == 0 && result.Result == inner.Result && result.Error == inner.Error && result.Done && result.Success && result.SuccessAll == inner.SuccessAll
+//@   ensures [C10.cancelled_before+C08.fallback.cancelled_before] failed && c1 ==> ncalls(e.fn) == 0 && ncalls(e.onFallbackExecuted) == 0 && result == ret(exec.IsCanceledWithResult, 1, 1)
+//@   ensures [C10.applied_once] failed && !c1 ==> ncalls(e.fn) == 1 && arg(e.fn, 1, 0) == ret(exec.CopyWithResult, ncalls(exec.CopyWithResult))
+//@   ensures [C10.cancelled_during+C08.fallback.cancelled_during] failed && !c1 && c2 ==> ncalls(e.onFallbackExecuted) == 0 && result == ret(exec.IsCanceledWithResult, 2, 1)
+//@   ensures [C10.replaced] failed && !c1 && !c2 ==> result.Result == fbRes && result.Error == fbErr && result.Done && result.Success == !isFailureOf(e.BaseExecutor, fbRes, fbErr) && result.SuccessAll == result.Success
+//@   ensures [C10.listener+C16.fallback.executed] failed && !c1 && !c2 ==> (e.onFallbackExecuted != nil ==> ncalls(e.onFallbackExecuted) == 1) 
+//@   havoc
+//@   modifies calls(innerFn), calls(e.fn), calls(e.onFallbackExecuted), calls(exec.IsCanceledWithResult), calls(exec.CopyWithResult), calls(e.onFailure), calls(e.onSuccess)
